@@ -3769,6 +3769,14 @@ func (r *JournalReader) Next() (err error) {
 	if r.offset == 0 {
 		r.sectorSize = binary.BigEndian.Uint32(hdr[20:])
 
+		// SQLite only accepts a sector size that is a power of two between 32
+		// and 65536 and otherwise treats the header as never synced (nothing is
+		// played back). A sector size of zero would also make this reader loop
+		// forever at offset zero.
+		if r.sectorSize < 32 || r.sectorSize > 0x10000 || r.sectorSize&(r.sectorSize-1) != 0 {
+			return io.EOF
+		}
+
 		// Use page size from journal reader, if set to 0.
 		pageSize := binary.BigEndian.Uint32(hdr[24:])
 		if pageSize == 0 {
